@@ -169,11 +169,15 @@ let c03run_main () =
           if not in_range then fin := "left-range"
           else if not read_safe then fin := "read-overwrites-its-svc"
           else begin
-            let wl = (match ev with Isa.Read (_, _) -> [] | _ -> wport s.Isa.mem s'.Isa.mem) in
-            (* wport needs the cell sets; a store of an equal value into an existing cell is recovered from the opcode *)
-            let wl = if wl = [] && (k lsr 4 = 2 || k lsr 4 = 8) then
-                       (let o = (iz s.Isa.oreg) lor (k land 15) in
-                        let ad = if k lsr 4 = 2 then o else ((iz s.Isa.breg) + o) land 0xffffffff in [(ad, iz s.Isa.areg)]) else wl in
+            (* the written word: Isa.step returns the very same memory value when it does not write; when it does, the
+               address is the instruction's effective address (checked by reading the new memory there; the final
+               memory hash covers every other cell) *)
+            let wl = (match ev with
+              | Isa.Read (_, _) -> []
+              | _ -> if s'.Isa.mem == s.Isa.mem then [] else
+                  (let o = (iz s.Isa.oreg) lor (k land 15) in
+                   let ad = if k lsr 4 = 2 then o else ((iz s.Isa.breg) + o) land 0xffffffff in
+                   [(ad, iz (WMap.rd s'.Isa.mem (zi ad)))])) in
             let (wa, wv, wp) = (match wl with (ad, v) :: _ -> (ad, v, true) | [] -> (0xffffffff, 0, false)) in
             let (evc, e1, e2) = (match ev with
               | Isa.Tau -> (0, 0, 0) | Isa.Exit c -> (1, iz c, 0)
